@@ -183,6 +183,9 @@ class World:
             "sym": g.Symbol,
         }
         self.dropped = []  # keeps dropped objects alive so id() is never reused within a run
+        self.label_uuid = {}  # label -> uuid int, for every label ever registered
+        self.last_loaded = None
+        self.queue = []  # operations scheduled by the generator (e.g. heal before save)
 
     # --- labels --------------------------------------------------------
     def fresh(self, kind):
@@ -194,6 +197,7 @@ class World:
         self.lab[id(obj)] = label
         self.m.nodes[label] = mnode
         self.seen_uuids[mnode.uuid] = None
+        self.label_uuid[label] = mnode.uuid
 
     def L(self, obj):
         """Label of a live object ('?Type' if the harness has never seen it)."""
@@ -256,6 +260,15 @@ class World:
             if p in owners:
                 raise Violation(p, check, detail)
         raise Diverged("%s/%s: %s" % ("|".join(owners), check, detail))
+
+    def owns(self, owners):
+        """Is the property under check among `owners`? Pure oracles (which do
+        not keep the model in step) of other properties are skipped rather
+        than allowed to cut the run."""
+        if isinstance(owners, str):
+            owners = (owners,)
+        mine = (self.prop,) if isinstance(self.prop, str) else tuple(self.prop or ())
+        return any(p in owners for p in mine)
 
     def event(self, rec):
         rec["step"] = self.step
